@@ -141,6 +141,17 @@ def check(ctx):
         for f in adt["variants"][0]["fields"]:
             ctx.check(f["vis"] != "Public", "C10.c", "%s.%s:private-field" % (adt["path"].split("::")[-1], f["name"]), "%s:%d" % (adt["file"], adt["line"]),
                       "", "field is public: the signal/despawner could be constructed or drained from outside")
+    try:
+        dn = A.method(prog, "AutoDespawner", "new")
+        ctx.touch(dn)
+        ok, det = lib.channel_pairing(dn, "AutoDespawner", "sender", "receiver")
+        ctx.check(ok, "C10.c", "AutoDespawner::new:channel-paired", "%s:%d" % (dn.file, dn.line), "sender and receiver are the two ends of one channel",
+                  "the despawner's sender and receiver are not the two ends of the same channel (%s)" % det)
+        cons = [lib.fkey(bd) for bd in prog.bodies for b, i, st in bd.iter_stmts() if st["k"] == "assign" and "agg" in st["rv"] and st["rv"]["agg"].get("adt") == desp["path"]]
+        ctx.check(sorted(set(cons) - derived_names(prog, desp["path"])) == ["AutoDespawner::new"], "C10.c", "AutoDespawner:constructed-only-in-new", "%s:%d" % (dn.file, dn.line),
+                  "", "AutoDespawner is constructed in %s" % cons)
+    except mir.AnchorLost as e:
+        ctx.fail("C10.c", "anchor-lost:AutoDespawner::new", "", str(e))
     # ---- C10.d Send + Sync (structural in quick; compile-pass witness in thorough) ----
     for f in inner["variants"][0]["fields"]:
         ctx.check(f["ty"] in SEND_SYNC_LEAVES, "C10.d", "AutoDespawnSignalInner.%s:send-sync-type" % f["name"], "%s:%d" % (inner["file"], inner["line"]),
@@ -178,3 +189,14 @@ def check(ctx):
     except mir.AnchorLost as e:
         ctx.fail("C10.f", "anchor-lost:setup_auto_despawn", "", str(e))
     ctx.sample({"payload": inner["path"], "construction_sites": [lib.fkey(s[0]) for s in sites], "try_recv_callers": [lib.fkey(c[0]) for c in tc]})
+
+
+def derived_names(prog, adt_path):
+    out = set()
+    for im in prog.impls:
+        if im.get("self_adt") == adt_path and im.get("derived"):
+            for i in im["items"]:
+                b = prog.body(i["path"])
+                if b is not None:
+                    out.add(lib.fkey(b))
+    return out
